@@ -23,6 +23,12 @@ COMMUTATIVE_CALLS = {
     'inner', 'np.maximum', 'np.minimum', 'max', 'min', 'np.add', 'np.multiply', 'np.union1d', 'np.intersect1d',
     'np.logical_and', 'np.logical_or', 'np.allclose', 'np.array_equal', 'np.fmax', 'np.fmin', 'set.union',
 }
+# unary calls whose removal changes the value (not the type only): f(x) -> x is a semantic mutation
+WRAPPER_CALLS = {'abs', 'np.abs', 'np.absolute', 'fabs', 'math.fabs', 'sorted', 'np.sort', 'np.unique', 'reversed', 'np.conj', 'np.conjugate',
+                 'np.transpose', 'np.negative', 'np.sqrt', 'np.square', 'np.real', 'np.copy', 'copy.copy', 'copy.deepcopy', 'np.cumsum', 'np.flip'}
+WRAPPER_METHODS = {'copy', 'conj', 'conjugate', 'transpose'}
+# attributes of this code base that hold sequences (tuples / lists): `+` on them is concatenation, not commutative
+SEQUENCE_ATTRS = {'kvs', 'shape', 'terms', 'Xs', 'Us', 'bs', 'bidx', 'meshes', 'ops', 'slices', 'R'}
 ANTONYM_CALLS = {}
 for _a, _b in (('min', 'max'), ('np.minimum', 'np.maximum'), ('np.argmin', 'np.argmax'), ('np.min', 'np.max'), ('np.floor', 'np.ceil'),
                ('math.floor', 'math.ceil'), ('any', 'all'), ('np.any', 'np.all'), ('np.triu_indices', 'np.tril_indices'), ('np.triu', 'np.tril'),
@@ -133,6 +139,30 @@ _COMMON_LIBRARY_METHODS = {
 }
 
 
+def _is_sequence_tree(t):
+    """canonical tree of something that is evidently a tuple / list / string"""
+    if not isinstance(t, tuple) or not t:
+        return False
+    if t[0] == 'T' or t[0] == 'S':
+        return True
+    if t[0] == 'A' and t[2] in SEQUENCE_ATTRS:
+        return True
+    if t[0] == 'C' and _tree_src_safe(t[1]) in ('tuple', 'list'):
+        return True
+    if t[0] == 'Sub' and _is_sequence_tree(t[1]) and any(isinstance(i, tuple) and i and i[0] == 'Slice' for i in t[2]):
+        return True         # a slice of a sequence
+    if t[0] == 'Mult' and any(_is_sequence_tree(x) for x in t[1:]):
+        return True         # n * (x,)
+    return False
+
+
+def _tree_src_safe(t):
+    try:
+        return _tree_src(t)
+    except Exception:
+        return ''
+
+
 def canon(n, bound=None):
     """canonical nested tuple of an expression node"""
     bound = bound or {}
@@ -170,6 +200,8 @@ def canon(n, bound=None):
                 else:
                     items.append(canon(x, bound))
             flat(n)
+            if isinstance(n.op, ast.Add) and any(_is_sequence_tree(x) for x in items):
+                return ('Concat',) + tuple(items)        # concatenation of sequences: order matters
             return (type(n.op).__name__,) + tuple(sorted(items, key=repr))
         if isinstance(n.op, ast.Sub):
             # a - b  ==  a + (-b)
@@ -313,6 +345,17 @@ def _neighbours(t):
         anti = ANTONYM_CALLS.get(fname0)
         if anti:
             yield ('C', _name_tree(anti), t[2], t[3]), 'call of %s replaced by its opposite %s' % (fname0, anti)
+    if tag == 'C':
+        # a value-changing wrapper dropped: abs(x) -> x, sorted(x) -> x, x.copy() -> x, ...
+        fname1 = _tree_src(t[1])
+        if fname1 in WRAPPER_CALLS and len(t[2]) == 1 and not t[3]:
+            yield t[2][0], 'call of %s dropped' % fname1
+        if t[1][0] == 'A' and t[1][2] in WRAPPER_METHODS and not t[2] and not t[3]:
+            yield t[1][1], 'call of .%s() dropped' % t[1][2]
+    if tag == 'Concat':
+        for i in range(1, len(t) - 1):
+            if t[i] != t[i + 1]:
+                yield t[:i] + (t[i + 1], t[i]) + t[i + 2:], 'operands %d and %d of the concatenation swapped' % (i, i + 1)
     if tag in ('And', 'Or'):
         yield (('Or' if tag == 'And' else 'And'),) + t[1:], 'and/or exchanged'
         for i in range(1, len(t)):
